@@ -147,17 +147,13 @@ func SelBegin(site string, n int) Sel {
 	if g == nil {
 		return Sel{n: n}
 	}
+	// The order in which the cases are attempted is drawn by the scheduler
+	// goroutine when it releases g (all decisions are taken in one place, in
+	// step order; a goroutine never draws from the shared tapes itself).
+	g.selCases = n
 	s.yield(g, site)
-	start := 0
-	if n > 1 {
-		t := s.Tapes.Sched
-		if t.Replaying() {
-			start = t.Draw(n)
-		} else {
-			start = s.Tapes.srng.IntN(n)
-			t.Put(start)
-		}
-	}
+	start := g.selStart
+	g.selCases, g.selStart = 0, 0
 	return Sel{s: s, g: g, site: site, n: n, start: start}
 }
 
